@@ -78,14 +78,11 @@ theorem shr_lt (u m : Nat) (hm : m ≠ 0) : u >>> ((msbN (u / m)).getD 0) < 2 * 
       _ = 2 * m * 2 ^ Nat.log2 (u / m) := by
         rw [Nat.mul_comm (2 ^ Nat.log2 (u / m)) 2, Nat.mul_assoc, Nat.mul_comm (2 ^ Nat.log2 (u / m)) m, Nat.mul_assoc]
 
-/-- **EliasFano** (C19). `b` is a builder created for `n = b.numVals` values over the universe
-    `u = b.univ` (so `b.lowLen = ⌊lg(u/n)⌋`, `0` when `u < n` — the third hypothesis is what
-    `EliasFanoBuilder::new` sets and `push` never changes) that has accepted the values `xs`. Then
-    `8·size_in_bytes ≤ n·⌊lg(u/n)⌋ + 7n + 8192`, and `≤ n·⌊lg(u/n)⌋ + 11n + 8192` after `enable_rank`. -/
-theorem eliasfano_bound (c : Cfg) (b : EFB) (xs : List Nat) (h : Holds b xs) (hm : b.numVals ≠ 0)
+/-- sharp form of the bound (constant `2048`), used for the structures that wrap an `EliasFano` -/
+theorem eliasfano_bits (c : Cfg) (b : EFB) (xs : List Nat) (h : Holds b xs) (hm : b.numVals ≠ 0)
     (hl : b.lowLen = (msbN (b.univ / b.numVals)).getD 0) :
-    8 * EF.codec.size (EF.ofBuilder c b) ≤ b.numVals * b.lowLen + 7 * b.numVals + 8192 ∧
-    8 * EF.codec.size ((EF.ofBuilder c b).enableRank c) ≤ b.numVals * b.lowLen + 11 * b.numVals + 8192 := by
+    8 * EF.codec.size (EF.ofBuilder c b) ≤ b.numVals * b.lowLen + 7 * b.numVals + 2048 ∧
+    8 * EF.codec.size ((EF.ofBuilder c b).enableRank c) ≤ b.numVals * b.lowLen + 11 * b.numVals + 2048 := by
   have hH : b.high.len ≤ 3 * b.numVals + 1 := by
     have := shr_lt b.univ b.numVals hm
     rw [← hl] at this
@@ -116,6 +113,18 @@ theorem eliasfano_bound (c : Cfg) (b : EFB) (xs : List Nat) (h : Holds b xs) (hm
     rw [BV.codec_size, DAIndex.codec_size]
     generalize b.numVals * b.lowLen = ml at hlow ⊢
     omega
+
+/-- **EliasFano** (C19). `b` is a builder created for `n = b.numVals` values over the universe
+    `u = b.univ` (so `b.lowLen = ⌊lg(u/n)⌋`, `0` when `u < n` — the third hypothesis is what
+    `EliasFanoBuilder::new` sets and `push` never changes) that has accepted the values `xs`. Then
+    `8·size_in_bytes ≤ n·⌊lg(u/n)⌋ + 7n + 8192`, and `≤ n·⌊lg(u/n)⌋ + 11n + 8192` after `enable_rank`. -/
+theorem eliasfano_bound (c : Cfg) (b : EFB) (xs : List Nat) (h : Holds b xs) (hm : b.numVals ≠ 0)
+    (hl : b.lowLen = (msbN (b.univ / b.numVals)).getD 0) :
+    8 * EF.codec.size (EF.ofBuilder c b) ≤ b.numVals * b.lowLen + 7 * b.numVals + 8192 ∧
+    8 * EF.codec.size ((EF.ofBuilder c b).enableRank c) ≤ b.numVals * b.lowLen + 11 * b.numVals + 8192 := by
+  have := eliasfano_bits c b xs h hm hl
+  generalize b.numVals * b.lowLen = ml at this ⊢
+  omega
 
 /-! ### the builder parameters are those of `new` -/
 
